@@ -28,16 +28,15 @@ TRUSTED = [
     "(struct '<f' '<d' for floats and vectors, Quaternion packing X,Y,Z only, uuid bytes, dotted-quad IPs, str = UTF-8 + NUL) "
     "is the harness adapter `tok()` and is exercised by every correspondence case, not proved; struct/uuid/socket/UTF-8 codec are assumed. "
     "The one float effect that is visible at byte level (a signalling single-precision NaN comes back quiet after unpack/pack) "
-    "IS modelled (quiet_groups); NaN values are outside C01's domain (val_ok demands nan_free) as the property statement excludes NaN",
-    "RawBytes values (caller-supplied pre-encoded fields) and Pretty/subfield-serializer values of Block.__setitem__ are not modelled; "
+    "IS modelled (quiet_groups); C01's wire-level domain excludes exactly the single-precision signalling NaNs (val_ok demands snan_free; "
+    "Python cannot even produce one through struct.pack('<f')), quiet NaNs round-trip bit-exactly; Python-level `==` is only checked on NaN-free messages",
+    "RawBytes values (caller-supplied pre-encoded fields) are modelled (WRaw: written as is) and exercised by the correspondence; they are "
+    "outside the conformance domain (val_ok is false on them). Pretty/subfield-serializer values of Block.__setitem__ are not modelled; "
     "the generator does not produce them",
     "Python dict semantics of Message.blocks / Block.vars are association lists with first-match lookup; the adapter emits each key once "
     "(dict keys are unique); dict *order* is kept as is and the theorem's right-hand side `normalize` reorders to template order - "
     "Python's Message.__eq__ compares dicts and so ignores order (C01_normalize_keeps_values states what normalize preserves)",
     "names are character lists instead of Coq `string` (extraction of `string` clashes with the shared OCaml prelude)",
-    "NOT proved (design item C01_default_width, first clause): `serialize d m = serialize d (normalize d m)` as one equation; what IS "
-    "proved is the round trip to `normalize d m`, that an unset variable encodes as zeros of the template width (C01_default_width) "
-    "which is the encoding of its default value (C01_default_is_zero_value), and what normalize keeps (C01_normalize_keeps_*)",
     "the template dictionary is taken from the live objects (DEFAULT_TEMPLATE_DICT) by harness/translate/template.py; "
     "template_parser.py's reading of message_template.msg itself is not modelled (it is the input of the translator)",
 ]
@@ -106,6 +105,8 @@ def _hexint(prefix_pos, v: int) -> str:
 def tok(tv, val) -> str:
     """wire-level value of a Python variable value for template variable tv (to_model)"""
     ty = tv.ty if tv is not None else None
+    if type(val).__name__ == "RawBytes":
+        return "R" + bytes(val).hex()       # pre-encoded field, written as is
     try:
         if ty in UNSIGNED:
             if isinstance(val, (int, bool)):
@@ -192,9 +193,10 @@ def f32(x: float) -> float:
     return struct.unpack("<f", struct.pack("<f", x))[0]
 
 
-F32_EDGE = [0.0, -0.0, 1.0, -1.5, 2.0 ** -149, -(2.0 ** -149), 2.0 ** -126, 3.4028234663852886e38, -3.4028234663852886e38,
+NAN = float("nan")
+F32_EDGE = [NAN, 0.0, -0.0, 1.0, -1.5, 2.0 ** -149, -(2.0 ** -149), 2.0 ** -126, 3.4028234663852886e38, -3.4028234663852886e38,
             float("inf"), float("-inf"), 0.5, 255.0]
-F64_EDGE = [0.0, -0.0, 5e-324, -5e-324, 2.2250738585072014e-308, 1.7976931348623157e308, -1.7976931348623157e308,
+F64_EDGE = [NAN, 0.0, -0.0, 5e-324, -5e-324, 2.2250738585072014e-308, 1.7976931348623157e308, -1.7976931348623157e308,
             float("inf"), float("-inf"), 0.1, 1e100]
 TEXTS = ["", "a", "hello world", "héllo 世界", "a\x00b", "\U0001f600", "x" * 40]
 BLOBS = [b"", b"\x00", b"\x00\x00", b"abc\x00", b"abc\x00\x00", b"abc", b"\xff\xfe\x00", b"\xc3\x28\x00", b"a\x00b\x00",
@@ -344,6 +346,26 @@ class Gen:
             if cands:
                 insts, tv = r.choice(cands)
                 insts[r.randrange(len(insts))].vars[tv.name] = self.bad_value(tv)
+        if mode in ("rawbytes", "rawjunk") and blocks:
+            cands = [(insts, tv) for b, insts in blocks for tv in b.vars if insts]
+            if cands:
+                insts, tv = r.choice(cands)
+                blk = insts[r.randrange(len(insts))]
+                if mode == "rawbytes":
+                    # the exact encoding of a legal value, supplied pre-packed (length prefix included)
+                    tk = tok(tv, self.value(tv, False))
+                    if tk[0] == "U":
+                        w = UNSIGNED[tv.ty]
+                        enc = int(tk[1:], 16).to_bytes(w, "big" if tv.ty == "TIPPort" else "little")
+                    elif tk[0] == "S":
+                        w = SIGNED[tv.ty]
+                        enc = int(tk[1:], 16).to_bytes(w, "little", signed=True)
+                    else:
+                        pl = bytes.fromhex(tk[1:])
+                        enc = (len(pl).to_bytes(tv.size, "little") + pl) if tv.ty == "TVarlen" else pl
+                else:
+                    enc = self.rbytes(r.randrange(0, 6))
+                blk.vars[tv.name] = im.dt.RawBytes(enc)
         if mode == "unset" and blocks:
             cands = [(insts, b) for b, insts in blocks if insts]
             if cands:
@@ -394,7 +416,7 @@ class Gen:
         return m
 
 
-BAD_MODES = ["count", "range", "unset", "gap", "unknown_block", "extra_var", "extra256", "acks256", "ackrange",
+BAD_MODES = ["rawbytes", "rawbytes", "rawjunk", "count", "range", "unset", "gap", "unknown_block", "extra_var", "extra256", "acks256", "ackrange",
              "acks_noflag", "flags256", "pid", "name"]
 
 
@@ -476,6 +498,8 @@ def in_domain(im: Impl, m) -> bool:
                 return False          # a variable the template does not have
             for tv in b.vars:
                 v = blk.vars.get(tv.name)
+                if type(v).__name__ == "RawBytes":
+                    return False      # pre-encoded fields are outside the template's value domain
                 if v is None:
                     if not blk.fill_missing:
                         return False
@@ -507,8 +531,9 @@ def in_domain(im: Impl, m) -> bool:
                             return False
                         if ty in F32S:
                             for i in range(0, len(pl), 4):
-                                x = struct.unpack("<f", pl[i:i + 4])[0]
-                                if x != x:
+                                bits = int.from_bytes(pl[i:i + 4], "little")
+                                # signalling NaN: exponent all ones, mantissa non-zero, quiet bit clear
+                                if bits & 0x7F800000 == 0x7F800000 and bits & 0x007FFFFF and not bits & 0x00400000:
                                     return False
                         size += want
     if int(m.send_flags) & 0x80 and size > 0x3000:
@@ -585,6 +610,10 @@ def canonical_python_values(im: Impl, m) -> bool:
                 v = blk.vars.get(tv.name)
                 if v is None:
                     return False
+                if tv.ty in F32S or tv.ty in F64S:
+                    comps = (v,) if isinstance(v, float) else tuple(v)
+                    if any(c != c for c in comps):
+                        return False      # NaN != NaN in Python; the wire-level check still applies
                 if tv.ty == "TVarlen" or tv.ty == "TFixed":
                     if isinstance(v, str):
                         if not (tv.text and not tv.bin) or v.endswith("\x00"):
@@ -683,6 +712,8 @@ def from_tok(im: Impl, tv, tk: str):
         return int(tk[1:], 16)
     if tk[0] == "S":
         return int(tk[1:], 16)
+    if tk[0] == "R":
+        return im.dt.RawBytes(bytes.fromhex(tk[1:]))
     pl = bytes.fromhex(tk[1:])
     ty = tv.ty if tv is not None else None
     try:
@@ -744,6 +775,74 @@ def gen_cases(ctx, im: Impl):
     # 6. random bulk
     for _ in range(ctx.pick(2200, 110000)):
         yield "random", g.message(rng.choice(im.tmsgs))
+
+
+def small_scope_multiple_fixed(im: Impl):
+    """exhaustive small scopes on a message type with a Multiple block (TestMessage: Single U32 + Multiple 4 of 3 x U32)
+    and one with a Fixed variable (CreateTrustedCircuit: UUID + Fixed 32; ViewerEffect.Effect.Color: Fixed 4):
+    every combination of the listed counts / presence / lengths / flag bits"""
+    M, B = im.Message, im.Block
+    t = im.by_name.get("TestMessage")
+    if t is not None and [b.kind for b in t.blocks] == ["S", "M"]:
+        vals = (0, 0xFFFFFFFF)
+        for fl in (0, 0x80):
+            for n1 in (0, 1, 2):
+                for nn in range(0, 7):
+                    for present in ((True, True), (True, False), (False, True)):
+                        for fill in (False, True):
+                            for pattern in range(3):
+                                m = M("TestMessage", packet_id=1, flags=fl)
+                                if present[0]:
+                                    m.create_block_list("TestBlock1")
+                                    for i in range(n1):
+                                        m.add_block(B("TestBlock1", fill_missing=fill, **({} if (fill and pattern == 2) else {"Test1": vals[i % 2]})))
+                                if present[1]:
+                                    m.create_block_list("NeighborBlock")
+                                    for i in range(nn):
+                                        kw = {"Test0": vals[(i + pattern) % 2], "Test1": i, "Test2": vals[pattern % 2]}
+                                        if pattern == 2:
+                                            del kw["Test1"]
+                                        m.add_block(B("NeighborBlock", fill_missing=fill, **kw))
+                                yield "scopeM", m
+    t = im.by_name.get("CreateTrustedCircuit")
+    if t is not None:
+        u = im.dt.UUID(bytes=bytes(range(16)))
+        for fl in (0, 0x80, 0x10):
+            for ln in (0, 1, 31, 32, 33):
+                for kind in ("zeros", "ff", "mixed", "str", "unset"):
+                    for fill in (False, True):
+                        for n in (0, 1, 2):
+                            kw = {"EndPointID": u}
+                            if kind == "zeros":
+                                kw["Digest"] = b"\x00" * ln
+                            elif kind == "ff":
+                                kw["Digest"] = b"\xff" * ln
+                            elif kind == "mixed":
+                                kw["Digest"] = bytes((i * 37) % 256 for i in range(ln))
+                            elif kind == "str":
+                                kw["Digest"] = "d" * max(ln - 1, 0)      # str = UTF-8 + NUL: ln bytes when ln >= 1
+                            m = M("CreateTrustedCircuit", packet_id=9, flags=fl)
+                            m.create_block_list("DataBlock")
+                            for _ in range(n):
+                                m.add_block(B("DataBlock", fill_missing=fill, **kw))
+                            if fl & 0x10:
+                                m.acks = (3,)
+                            yield "scopeF", m
+    t = im.by_name.get("ViewerEffect")
+    if t is not None:
+        z = im.dt.UUID()
+        for ln in range(0, 6):
+            for n in (0, 1, 2):
+                for fill in (False, True):
+                    for setcolor in (True, False):
+                        m = M("ViewerEffect", B("AgentData", AgentID=z, SessionID=z), packet_id=3, flags=0)
+                        m.create_block_list("Effect")
+                        for i in range(n):
+                            kw = dict(ID=z, AgentID=z, Type=i, Duration=1.0, TypeData=b"")
+                            if setcolor:
+                                kw["Color"] = bytes(range(1, ln + 1))
+                            m.add_block(B("Effect", fill_missing=fill, **kw))
+                        yield "scopeF", m
 
 
 def small_scope_cases(im: Impl):
@@ -862,7 +961,11 @@ def correspond(ctx):
                           "one injected defect (13 kinds) and byte-mutated datagrams. Per case: serialize bytes (or error) equal; conforms "
                           "(model) = in_domain (independent Python transcription of the statement); deserialize of the datagram equal "
                           "(as model lines); model normalize = impl decode(encode); impl-level oracle of C01 on every in-domain message. "
-                          "An exhaustive small scope on PacketAck (16 flag nibbles x counts 0..3 x acks 0..2 x extra 0..1) is included. "
+                          "Exhaustive small scopes: PacketAck (16 flag nibbles x counts 0..3 x acks 0..2 x extra 0..1); TestMessage with its "
+                          "Multiple-4 block (counts 0..6 x Single counts 0..2 x block presence x fill x 3 value/unset patterns x zerocoded); "
+                          "CreateTrustedCircuit Fixed-32 Digest (lengths 0/1/31/32/33 x zeros/ff/mixed/str/unset x fill x instance counts 0..2 "
+                          "x flags) and ViewerEffect Fixed-4 Color (lengths 0..5 x counts 0..2 x fill x set/unset). RawBytes (pre-packed) values "
+                          "are injected as exact encodings and as junk. "
                           "non-trivial = distinct message line with at least one set variable")
     dist = {}
     # the dictionary the driver runs on is the generated one, and it is well formed there too
@@ -870,7 +973,7 @@ def correspond(ctx):
     if w != "1 %d" % len(im.tmsgs):
         res.disagreements.append({"op": "dictionary", "model": w, "impl": "1 %d" % len(im.tmsgs)})
     batch = []
-    cases = itertools.chain(gen_cases(ctx, im), small_scope_cases(im))
+    cases = itertools.chain(gen_cases(ctx, im), small_scope_cases(im), small_scope_multiple_fixed(im))
     for c in cases:
         batch.append(c)
         if len(batch) >= 400:
@@ -1035,7 +1138,7 @@ def search(ctx, hints):
                         return shrink(im, m, v)
                 except Exception:
                     pass
-    for kind, m in itertools.chain(gen_cases(ctx, im), small_scope_cases(im)):
+    for kind, m in itertools.chain(gen_cases(ctx, im), small_scope_cases(im), small_scope_multiple_fixed(im)):
         v = _check_message(im, m)
         if v:
             return shrink(im, m, v)
